@@ -21,7 +21,36 @@ use std::sync::{Arc, Mutex};
 use std::time::{Duration, Instant};
 
 thread_local! {
-    static LAST_PANIC: RefCell<Option<(String, String)>> = const { RefCell::new(None) };
+    static LAST_PANIC: RefCell<Option<(String, String, String)>> = const { RefCell::new(None) };
+}
+
+/// innermost frame of the panicking call stack that belongs to the code under test, as
+/// "<file>:<function>" (robust to line shifts)
+fn first_repo_frame() -> String {
+    let bt = std::backtrace::Backtrace::force_capture().to_string();
+    if std::env::var("VERIF_BT").is_ok() {
+        eprintln!("{bt}");
+    }
+    let mut name = String::new();
+    for line in bt.lines() {
+        let l = line.trim();
+        if let Some(path) = l.strip_prefix("at ") {
+            if (path.starts_with("/repo/abra_core/src/") || path.starts_with("/repo/utils/src/"))
+                && !path.contains("vm_verif.rs")
+            {
+                let file = path.split(':').next().unwrap_or("");
+                let file = file.rsplit('/').next().unwrap_or("");
+                let mut f = name.clone();
+                if let Some(i) = f.find('<') {
+                    f.truncate(i);
+                }
+                return format!("{file}:{f}");
+            }
+        } else if let Some((_, sym)) = l.split_once(": ") {
+            name = sym.to_string();
+        }
+    }
+    String::new()
 }
 
 fn install_panic_hook() {
@@ -41,7 +70,7 @@ fn install_panic_hook() {
             let mut p = p.borrow_mut();
             // keep the FIRST panic of a job (later ones are usually consequences)
             if p.is_none() {
-                *p = Some((msg, loc));
+                *p = Some((msg, loc, first_repo_frame()));
             }
         });
     }));
@@ -49,8 +78,8 @@ fn install_panic_hook() {
 
 fn take_panic() -> J {
     match LAST_PANIC.with(|p| p.borrow_mut().take()) {
-        Some((msg, loc)) => json!({"msg": msg, "loc": loc}),
-        None => json!({"msg": "<unknown>", "loc": ""}),
+        Some((msg, loc, func)) => json!({"msg": msg, "loc": loc, "func": func}),
+        None => json!({"msg": "<unknown>", "loc": "", "func": ""}),
     }
 }
 
